@@ -42,6 +42,7 @@ type Tier struct {
 // Unit functions by name.
 var Units = map[string]func(p *load.Program, r *Roles, t Tier) *UnitResult{
 	"loops": func(p *load.Program, r *Roles, t Tier) *UnitResult { return AnalyzeRetryLoops(p, r) },
+	"flow":  func(p *load.Program, r *Roles, t Tier) *UnitResult { return AnalyzeFlow(p, r, t.Depth) },
 	"run": func(p *load.Program, r *Roles, t Tier) *UnitResult {
 		res := AnalyzeRun(p, r, t.Depth)
 		return &UnitResult{Col: res.Col, Stats: res.Stats}
@@ -123,15 +124,28 @@ func init() {
 		CaseRule:    "an obligation instance is one (abstract path, site) pair; distinct = distinct rule@construct keys",
 		Floors:      []Floor{{"C11.R1@batch|*:cb:Exec", 1, "observation before per-item attempts"}, {"C11.R2@batch|*:wait-select", 1, "interruptible per-item wait"}, {"C11.R3@batch|*:post", 1, "coverage at post"}, {"C11.R4@batch|*", 2, "termination: unlock on all task paths, wait before post"}},
 		Assumptions: append(append([]string{}, commonAssumptions...), "which worker holds which item at the instant of cancellation is a schedule question; the structural cause (the observation is made by each task before executing) is what is decided")})
-	reg(&Prop{ID: "C04", Units: []string{"run"}, Technique: "static analysis: path-sensitive error-provenance (wrap-chain) abstract interpretation over go/ssa",
+	flowExpl := "Path-sensitive abstract interpretation of (*Flow).Exec with the static call Run(ctx, current, shared) cut into an opaque ChildRun event (Run itself is verified for arbitrary nodes by C01/C02/C04/C05, so induction over nesting applies); the node argument is aliased after each event, which makes the per-step routing rule expressible with finitely many terms and covers cycles, self-loops and repeated runs. Connect, NewFlow, Flow.Prep/Post/Run are explored as separate roots."
+	reg(&Prop{ID: "C03", Units: []string{"flow"}, Technique: "static analysis: path-sensitive routing-provenance abstract interpretation + map-effect analysis over go/ssa",
+		Explanation: flowExpl + " C03 decides: the first node run is the flow's start field; each further node run is exactly transitions[previous node][its action]; every undecided branch between two child runs depends only on the child's error, the context, and the presence/nil-ness of that two-level lookup; success is returned only when the lookup is known absent or nil; no other call touches nodes; running a flow has no heap effect; Connect stores `to` under (from, action) exactly once on every path, creates the inner table only when absent, deletes nothing and returns its receiver; NewFlow stores its argument and a fresh table.",
+		CaseRule:    "an obligation instance is one (abstract path, site) pair; distinct = distinct rule@construct keys",
+		Floors: []Floor{{"C03.R1@*:child-run", 1, "first node"}, {"C03.R2@*:child-run", 1, "routing step"}, {"C03.R3@*:routing-decision", 1, "routing decisions"}, {"C03.R3@*:success-return", 1, "termination condition"},
+			{"C03.R5@*:transition-store", 1, "Connect stores"}, {"C03.R5@*:inner-map-creation", 1, "Connect creates inner table"}, {"C03.R5@*:return", 1, "Connect returns"}, {"C03.R6@*:effect", 4, "effect freedom of Exec/Prep/Post/Run"}, {"C03.R7@NewFlow:*", 2, "NewFlow"}},
+		Assumptions: append(append([]string{}, commonAssumptions...), "Go map semantics; nodes of unhashable dynamic type panic at Connect (outside the statement)")})
+	reg(&Prop{ID: "C10", Units: []string{"flow"}, Technique: "static analysis: path-sensitive value-provenance abstract interpretation over go/ssa",
+		Explanation: flowExpl + " C10 decides: Flow.Prep returns its store parameter; every child run receives the store asserted from Flow.Exec's prep value and the flow's context; the success value of Flow.Exec is the last child run's action boxed as Action; Flow.Post returns exactly that action; Flow.Run runs the flow through Run with the caller's context/store and returns its error; no function statically reachable from Run asserts a node to *Flow; NewFlow embeds a BaseNode with the defaults (one attempt, no wait). Together with C01/C03/C04 this is the flattening argument by induction on nesting depth.",
+		CaseRule:    "an obligation instance is one (abstract path, site) pair; distinct = distinct rule@construct keys",
+		Floors: []Floor{{"C10.R1@Flow.Prep:return", 1, "prep hands the store through"}, {"C10.R2@*:child-run", 1, "children run on the parent's store"}, {"C10.R3@*:success-return", 1, "last action"}, {"C10.R4@Flow.Post:return", 1, "post returns the action"},
+			{"C10.R5@Run:type-tests", 1, "no special-casing"}, {"C10.R6@NewFlow:base-node", 1, "default budget"}, {"C10.R7@Flow.Run:*", 2, "Flow.Run"}},
+		Assumptions: commonAssumptions})
+	reg(&Prop{ID: "C04", Units: []string{"run", "flow"}, Technique: "static analysis: path-sensitive error-provenance (wrap-chain) abstract interpretation over go/ssa",
 		Explanation: lifeExpl + " C04 decides on Run (single and batch paths): nil error iff the path ended in a successful post; every error return that follows a failing callback wraps (fmt.Errorf %w / errors.Join / identity) that callback's own error term, and no further phase callback is invoked after it.",
 		CaseRule:    "an obligation instance is one (abstract path, return or call site) pair; distinct = distinct rule@construct keys",
-		Floors:      []Floor{{"C04.R1@single|*:return", 1, "success returns, single"}, {"C04.R2@single|*:return", 3, "error returns (prep, exec, post), single"}, {"C04.R2@batch|*:return", 2, "error returns, batch"}, {"C04.R3@*", 3, "fail-stop checks"}},
+		Floors:      []Floor{{"C04.R1@single|*:return", 1, "success returns, single"}, {"C04.R2@single|*:return", 3, "error returns (prep, exec, post), single"}, {"C04.R2@batch|*:return", 2, "error returns, batch"}, {"C04.R3@*", 3, "fail-stop checks"}, {"C04.R4@*:child-run", 1, "flow stops after a failed node"}, {"C04.R4@*:error-return", 1, "flow returns the child's error"}},
 		Assumptions: commonAssumptions})
-	reg(&Prop{ID: "C05", Units: []string{"run"}, Technique: "static analysis: path-sensitive context-observation typestate over go/ssa",
+	reg(&Prop{ID: "C05", Units: []string{"run", "flow"}, Technique: "static analysis: path-sensitive context-observation typestate over go/ssa",
 		Explanation: lifeExpl + " C05 decides on the single-node path of Run: a context observation (ctx.Err()==nil edge, or a select with ctx.Done() taking another case) lies between the previous user callback (or the start) and prep / every exec attempt; every path that observed cancellation invokes no further callback and returns a non-nil error wrapping a ctx.Err() result; the retry wait selects on ctx.Done().",
 		CaseRule:    "an obligation instance is one (abstract path, call/return site) pair; distinct = distinct rule@construct keys",
-		Floors:      []Floor{{"C05.R1@single|*:cb:Prep", 1, "observation before prep"}, {"C05.R1@single|*:cb:Exec", 1, "observation before each attempt"}, {"C05.R2@single|*:return", 3, "returns after cancellation"}, {"C05.R3@single|*", 1, "interruptible wait"}},
+		Floors:      []Floor{{"C05.R1@single|*:cb:Prep", 1, "observation before prep"}, {"C05.R1@single|*:cb:Exec", 1, "observation before each attempt"}, {"C05.R2@single|*:return", 3, "returns after cancellation"}, {"C05.R3@single|*", 1, "interruptible wait"}, {"C05.R1@*:child-run", 1, "observation before each node of a flow"}, {"C05.R2@*:cancel-return", 1, "cancelled flow returns ctx error"}},
 		Assumptions: append(append([]string{}, commonAssumptions...), "select fairness when timer and Done are ready together is not decided (treated as observed)")})
 	reg(&Prop{ID: "C18", Units: []string{"run"}, Technique: "static analysis: path-sensitive return-predicate (non-empty fact) over go/ssa",
 		Explanation: lifeExpl + " C18 decides: at every nil-error return of Run (single node, batch with items, empty batch) the action term is a non-empty constant or carries the fact != \"\" on that path.",
